@@ -228,7 +228,7 @@ def rule_own_memory(rep):
     rep.guarded("R-C03-window", C08.rule_window, "R-C03-window")
     shares.provision(rep, ("FastFixedOut",), "an under-provisioned call reads past the frames it was given")
     rep.floor("R-C03-chan", 13)
-    rep.floor("R-C03-outwrite", 10)
+    rep.floor("R-C03-outwrite", 12)
     rep.floor("R-C03-alloc", 2)
     rep.floor("R-C03-margin", 1 + 5)
     rep.floor("R-C03-history", 1)
